@@ -1,0 +1,10 @@
+//go:build verif
+
+package watermark
+
+// VerifStopNoWait asks the consumer goroutine to exit without waiting for it
+// (the verification harness abandons instances whose goroutines may never
+// have been scheduled).
+func (w *WaterMark) VerifStopNoWait() {
+	close(w.stopC)
+}
